@@ -12,11 +12,11 @@ PROP = "C08"
 PROPS_FILE = "Props/C08.v"
 
 
-def make_data(rng, n, masked_frac, ascending, garbage_seed):
+def make_data(rng, n, masked_frac, ascending, garbage_seed, negative=False):
     import numpy as np
     from pyimpspec import DataSet, parse_cdc
     f = np.logspace(4.5, -1.5, n)
-    circuit = parse_cdc("R{R=50}(R{R=200}C{C=2e-5})(R{R=400}Q{Y=2e-3,n=0.85})")
+    circuit = parse_cdc("R{R=-150}(R{R=100}C{C=1e-4})(R{R=300}Q{Y=1e-3,n=0.8})" if negative else "R{R=50}(R{R=200}C{C=2e-5})(R{R=400}Q{Y=2e-3,n=0.85})")
     Z = circuit.get_impedances(f)
     rs = np.random.RandomState(1234)
     Z = Z * (1 + 0.001 * rs.normal(size=n)) + 1j * 0.001 * abs(Z) * rs.normal(size=n)
@@ -105,12 +105,16 @@ def run(rep, tier, seed, tr_errors):
     thm_ok, names, out = lib.check_props_file(rep, PROPS_FILE, expect=["C08_chisqr_term_is_residual_modulus_squared", "C08_chisqr_is_sum_sq_residuals", "C08_exact_fit_zero"])
     problems = []
     kf = lib.load_known_findings()
-    variants = [(29, 0.0, False), (33, 0.2, False), (33, 0.2, True)] if tier == "quick" else [(29, 0.0, False), (33, 0.2, False), (33, 0.2, True), (47, 0.25, True), (41, 0.1, False)]
+    # the last flag: a spectrum with a negative series resistance (negative real parts of Z and Y at low frequencies)
+    variants = ([(29, 0.0, False, False), (33, 0.2, False, False), (33, 0.2, True, False), (31, 0.1, False, True)] if tier == "quick" else
+                [(29, 0.0, False, False), (33, 0.2, False, False), (33, 0.2, True, False), (47, 0.25, True, False), (41, 0.1, False, False), (31, 0.1, False, True), (45, 0.2, True, True)])
     stats = {}
     for name, fn, circ in entries(tier):
-        for (n, mf, asc) in variants:
-            d1 = make_data(random.Random(seed + n), n, mf, asc, 1)
-            d2 = make_data(random.Random(seed + n), n, mf, asc, 2)
+        for (n, mf, asc, neg) in variants:
+            if neg and not (name.startswith("perform_zhit") or name.startswith("perform_kramers_kronig_test[") or name.startswith("calculate_drt[tr-nnls")):
+                continue
+            d1 = make_data(random.Random(seed + n), n, mf, asc, 1, neg)
+            d2 = make_data(random.Random(seed + n), n, mf, asc, 2, neg)
             before = json.dumps(d1.to_dict(), sort_keys=True, default=str)
             cbefore = circ.serialize(17) if circ is not None else None
             try:
@@ -121,7 +125,7 @@ def run(rep, tier, seed, tr_errors):
                 stats[name]["raised:" + type(e).__name__] += 1
                 continue
             rep.evaluations += 2
-            rep.distinct.add((name, n, mf, asc))
+            rep.distinct.add((name, n, mf, asc, neg))
             stats.setdefault(name, {}).setdefault("ok", 0)
             stats[name]["ok"] += 1
             pr = check_result(r1, d1, name)
@@ -136,7 +140,7 @@ def run(rep, tier, seed, tr_errors):
                 if known:
                     rep.known.append("%s: %s" % (known["id"], known["what"])) if ("%s: %s" % (known["id"], known["what"])) not in rep.known else None
                 else:
-                    problems.append((name, (n, mf, asc), p))
+                    problems.append((name, (n, mf, asc, neg), p))
     rep.extra["entry_point_runs"] = stats
     rep.samples = [{"entry": k, "runs": v} for k, v in list(stats.items())[:4]]
     dead = [k for k, v in stats.items() if not v.get("ok")]
@@ -145,7 +149,7 @@ def run(rep, tier, seed, tr_errors):
         rep.violation("entry_raises", {"kind": "counterexample", "obligation": "entry point returns a result for valid data", "input": {"entries": dead, "runs": {k: stats[k] for k in dead}}})
     rep.oblige("results-consistent-with-data (frequencies, residuals, chi-squared, circuit, masked points, inputs untouched)", not problems, "%d problems" % len(problems))
     for n_, (name, var, p) in enumerate(problems[:5]):
-        rep.violation("result_%d" % n_, {"kind": "counterexample", "obligation": "result consistent with its data", "input": {"entry": name, "points": var[0], "masked_fraction": var[1], "ascending": var[2], "observed": p}})
+        rep.violation("result_%d" % n_, {"kind": "counterexample", "obligation": "result consistent with its data", "input": {"entry": name, "points": var[0], "masked_fraction": var[1], "ascending": var[2], "negative_series_resistance": var[3], "observed": p}})
     if not thm_ok and not rep.violations:
         rep.violation("theorems", {"kind": "broken-obligation", "obligation": PROPS_FILE, "detail": [o for o in rep.obligations if not o[1]]}, no_input=True)
 
